@@ -28,7 +28,7 @@ var c17Names = []string{"a", "b", "c", "title", "name", "n", "user", "Title", "h
 // embedded struct, its type name, a nil pointer field, a struct field, a field tagged json:"-", entries of a
 // non-struct root value). For them the model does not say what Lookup must return; only the agreement of
 // EnvMap with whatever Lookup returns is checked.
-var c17Exotic = []string{"id", "ID", "Kind", "RichBase", "ptr", "sub", "-", "Skip", "1"}
+var c17Exotic = []string{"id", "ID", "Kind", "RichBase", "ptr", "sub", "-", "Skip", "1", "hold", "shh"}
 
 type mStack struct {
 	scopes []map[string]any
@@ -142,6 +142,7 @@ type tyInner struct {
 	Name   string `json:"name"`
 	N      int    `json:"n"`
 	hidden string
+	secret string `json:"secret"` // unexported, but tagged
 }
 type tyBase struct {
 	Kind string `json:"kind"`
@@ -167,7 +168,7 @@ type tyVal struct {
 }
 
 func tyValue() *tyVal {
-	in := &tyInner{Name: "in", N: 3, hidden: "h"}
+	in := &tyInner{Name: "in", N: 3, hidden: "h", secret: "s"}
 	return &tyVal{
 		SM: map[string]string{"k": "v", "empty": ""}, SS: []string{"x", "y"}, Arr: [2]int{7, 8}, P: in, PP: &in,
 		Emb:    tyEmb{Title: "t"},
@@ -189,7 +190,7 @@ var tyTable = []tyCase{
 	{"ty.sm.k", "v", true}, {"ty.sm.nokey", nil, false}, {`ty.sm["nokey"]`, nil, false}, {"ty.sm['k']", "v", true}, {"ty.sm.empty", "", true},
 	{"ty.ss[1]", "y", true}, {"ty.ss[2]", nil, false}, {"ty.ss[-1]", nil, false}, {"ty.ss.0", "x", true},
 	{"ty.arr[1]", 8, true}, {"ty.arr[2]", nil, false}, {"ty.arr[-1]", nil, false},
-	{"ty.p.name", "in", true}, {"ty.P.Name", "in", true}, {"ty.p.n", 3, true}, {"ty.p.hidden", nil, false}, {"ty.p.nofield", nil, false},
+	{"ty.p.name", "in", true}, {"ty.P.Name", "in", true}, {"ty.p.n", 3, true}, {"ty.p.hidden", nil, false}, {"ty.p.secret", nil, false}, {"ty.p.nofield", nil, false},
 	{"ty.nilp.name", nil, false}, {"ty.pp.name", "in", true},
 	{"ty.emb.title", "t", true}, {"ty.emb.Kind", nil, false}, {"ty.Emb.Title", "t", true},
 	{`ty.files["index.html"]`, "the page", true}, {`ty.files['index.html']`, "the page", true}, {`ty.files["about.html"]`, nil, false}, {"ty.files.index.html", "IMPOSTOR", true},
